@@ -5,7 +5,8 @@ raising at position k) on a real Daemon (both server types) and then run a plan 
 drop (the network resets the proxy's connection between two calls) / advance steps; on the thread server a COMMTIMEOUT may
 additionally make the server close idle connections by itself.  A 'par' step releases two client threads of different
 proxies at the same instant (one loses / releases its connection, the other opens / fetches from / closes one of its own
-streams), and a client thread may carry a fixed correlation id (documented client API) with every call.  A next() may carry an
+streams), a 'stall' plan slows the server's disconnect step down (injected stalls inside Daemon._clientDisconnect) while the same
+proxy reconnects and fetches at once, and a client thread may carry a fixed correlation id (documented client API) with every call.  A next() may carry an
 in-flight fault: a middlebox loses the reply of that get_next_stream_item call (connection reset, or - with a proxy timeout -
 the reply never arrives), with config.MAX_RETRIES in {0,1,2}.  Plan variants: 'combined' (streams on a second daemon served by
 the first one's multiplex loop) and 'external_loop' (the daemon is never run by requestLoop(): a harness thread plays the
@@ -95,7 +96,8 @@ class ObsDaemonObject(SV.DaemonObject):
         try:
             return super().get_next_stream_item(streamId)
         finally:
-            _obs("fetch-end", streamId)
+            e = self.daemon.streaming_responses.get(streamId)
+            _obs("fetch-end", streamId, None if e is None else (_conn_of(e[0]), e[2]))
 
     def close_stream(self, streamId):
         _obs("closex", streamId)
@@ -183,6 +185,17 @@ def _codes():
     return _CODES
 
 
+_CODES_STALL = None
+
+
+def _codes_stall():
+    """stall plans: only the server's disconnect step may be slowed down (fetches and housekeeping stay atomic)"""
+    global _CODES_STALL
+    if _CODES_STALL is None:
+        _CODES_STALL = S.code_objects(SV.Daemon._clientDisconnect)
+    return _CODES_STALL
+
+
 def source_shape(sd):
     """-> (number of items, how it ends: 'stop' | 'exc')"""
     n, bad = sd["n"], sd["bad"]
@@ -205,11 +218,12 @@ class StreamWorld(World):
               "reconnect_within_linger", "reconnect_after_linger", "terminated_error", "client_local_closed",
               "streaming_disabled", "two_proxies", "concurrent_streams", "multiplex", "thread", "housekeeping_observed",
               "temp_proxy_close", "client_local_stop", "preempted", "raced",
-              "connection_dropped", "continued_after_drop", "concurrent_ops", "client_correlation_id", "disconnect_during_table_change", "chatter", "combined", "combined_slave_idle_expiry", "external_loop", "reply_lost", "continued_after_lost_reply"]
+              "connection_dropped", "continued_after_drop", "concurrent_ops", "client_correlation_id", "disconnect_during_table_change", "chatter", "combined", "combined_slave_idle_expiry", "external_loop", "reply_lost", "continued_after_lost_reply", "fetch_during_disconnect", "stalled"]
     # also counted, but too schedule-dependent to demand: "fetch_before_old_disconnect", "expired_but_still_answers"
     RULE = ("plan = (server type, serializer, ITER_STREAMING on/off, ITER_STREAM_LIFETIME in {0,5,20}, ITER_STREAM_LINGER in "
             "{0,3,10}, 18% of the multiplex plans 'combined': the streams live on a second daemon served by the first one's loop (Daemon.combine), "
-            "violation keys then end in ':combined', 12% of the other plans 'external_loop' (own select loop + daemon.events(), keys end in "
+            "violation keys then end in ':combined', 30% of the thread-server plans are the short focus shape 'reconnect races the old connection's "
+            "teardown' (p_stall inside _clientDisconnect; release/drop, reconnect and next at once, once or twice; advance linger+5; next), 12% of the other plans 'external_loop' (own select loop + daemon.events(), keys end in "
             "':external-loop'), next ops may carry an in-flight fault reply_rst / reply_timeout with MAX_RETRIES in {0,1,2} and an optional "
             "1 s proxy timeout, 1-2 proxies, 1-4 stream sources (generator/list, 0-8 items, optional ValueError at position k), 6-26 ops "
             "open/next/close/release/reconnect/drop/advance{0.5..30 s} with optional settle after each (drop = the network resets "
@@ -237,6 +251,9 @@ class StreamWorld(World):
                    "fetches and returns normally has lost an item silently: item-lost/retried-fetch); other calls (open) may be retried",
                    "external_loop on the multiplex server: the daemon can only housekeep when the application hands it an event; before the "
                    "final look at the table the driver therefore makes one unrelated connection",
+                   "a fetch that overlaps a disconnect step (line pre-emption / injected stall) is two whole-entry stores in either order: "
+                   "the entry the fetch leaves behind (observed when it ends) decides which; a slow disconnect step may have set its linger "
+                   "mark anywhere between its start and its end (both times are kept)",
                    "the background 'chatter' client (30% of the plans: one ping every POLLTIMEOUT/4 s on its own connection) is not part "
                    "of the model",
                    "when the server's disconnect step fails before reaching the clientDisconnect hook the connection has ended all the "
@@ -402,6 +419,34 @@ class StreamWorld(World):
             corr[0] = 0
             if nprox == 2:
                 corr[1] = rng.choice([None, 0, 1])
+        p_stall = 0.0
+        stall = False
+        if streaming and not race and not par and rng.random() < (0.3 if servertype == "thread" else 0.03):
+            # focus shape "reconnect races the old connection's teardown": the proxy loses / drops its connection and reconnects and
+            # fetches at once, while the server's worker of the OLD connection is slow (injected stall) inside _clientDisconnect;
+            # then the linger period passes with the client connected all the time, and it fetches again
+            stall = True
+            lines, p_line, p_block, p_stall = True, rng.choice([0.0, 0.0, 0.05]), rng.choice([0.0, 0.0, 0.3]), rng.choice([0.08, 0.12, 0.17])
+            commtimeout = 0.0
+            if linger == 0:
+                linger = rng.choice([3, 10])
+            if lifetime and rng.random() < 0.8:
+                lifetime = 0
+            # a short plan of its own (the stall has to hit one particular line of the disconnect step: keep the table small)
+            nprox = 1
+            chatter = False
+            corr = [corr[0]]
+            k = rng.choice([1, 2, 3, 4])
+            streams = [{"proxy": 0, "kind": rng.choice(["gen", "list"]), "n": rng.choice([3, 5, 8]), "bad": -1} for _ in range(k)]
+            ops = [{"op": "open", "s": i} for i in range(k)] + [{"op": "next", "s": rng.randrange(k)} for _ in range(rng.randint(0, 1))]
+            for _ in range(rng.choice([1, 1, 1, 1, 1, 2])):
+                ops += [{"op": rng.choice(["release", "release", "drop"]), "p": 0}, {"op": "reconnect", "p": 0}]
+                order = list(range(k))
+                rng.shuffle(order)
+                ops += [{"op": "next", "s": i} for i in order]      # every stream is resumed over the new connection at once
+            ops += [{"op": "advance", "dt": linger + 5}] + [{"op": "next", "s": i} for i in range(k)]
+            if rng.random() < 0.5:
+                ops += [{"op": "next", "s": rng.randrange(k)}]
         if race:
             # focus shape "expiry race": a fresh stream reaches its lifetime (or its linger period after a disconnect) and the
             # client closes it / fetches from it at the very instant of the first housekeeping pass that would remove it
@@ -436,11 +481,13 @@ class StreamWorld(World):
             ops = ops + tail
         plan = {"servertype": servertype, "serializer": rng.choice(SERIALIZERS), "streaming": streaming,
                 "lifetime": lifetime, "linger": linger, "nproxies": nprox, "streams": streams, "ops": ops,
-                "commtimeout": commtimeout, "corr": corr, "chatter": chatter, "lines": lines, "p_line": p_line, "p_block": p_block,
+                "commtimeout": commtimeout, "corr": corr, "chatter": chatter, "lines": lines, "p_line": p_line, "p_block": p_block, "p_stall": p_stall, "stall": stall,
                 "net": {"shuffle_select": rng.random() < 0.5}}
         if any(o.get("fault") for o in ops):
             plan["retries"] = rng.choice([0, 1, 2])             # config.MAX_RETRIES: must not apply to stream fetches
             plan["timeout"] = rng.choice([None, 1.0, 1.0])      # proxy timeout (virtual s); without it reply_timeout acts as reply_rst
+            if stall:
+                plan["timeout"] = None      # a stalled server step must not look like a lost reply
         if servertype == "multiplex" and rng.random() < 0.18:
             # the stream sources live on a SECOND daemon that is combined into the first one's multiplex loop (Daemon.combine);
             # the background client, if any, talks to the master (master busy, slave idle) or to the slave
@@ -452,6 +499,8 @@ class StreamWorld(World):
         return plan
 
     def line_codes(self, plan):
+        if plan.get("stall"):
+            return _codes_stall()
         return _codes() if plan.get("lines") else ()
 
     def simplify(self, plan):
@@ -663,6 +712,13 @@ class StreamWorld(World):
 
         state = {"hung": None, "par": 0}
 
+        def calm():
+            """nothing runnable any more; with injected stalls also: no server step still sleeping in the middle of its work"""
+            if plan.get("stall"):
+                sched.quiesce()
+            else:
+                sched.settle(5.0)
+
         def start(p, op):
             """hand one op to the owning client thread"""
             box = boxes[p]
@@ -732,7 +788,7 @@ class StreamWorld(World):
             idx = _conn_of(proxies[p]._pyroConnection)
             if idx is None:
                 return
-            sched.settle(5.0)
+            calm()
             csock, ssock = net.conns[idx]
             if csock.closed or ssock.closed or csock.reset:
                 return
@@ -806,15 +862,15 @@ class StreamWorld(World):
         if not state["hung"]:
             for s in sorted(its):
                 run_op(streams[s]["proxy"], {"op": "close", "s": s, "final": True})
-            sched.settle(5.0)
+            calm()
             poke()
             _obs("snap", tuple(sorted(daemon.streaming_responses)), "after-close")
         if not state["hung"]:
             for p in range(nprox):
                 run_op(p, {"op": "release", "p": p, "final": True})
-            sched.settle(5.0)
+            calm()
             sched.sleep(max(life, linger) + 3 * POLL + 1.0)
-            sched.settle(5.0)
+            calm()
             poke()
             _obs("snap", tuple(sorted(daemon.streaming_responses)), "final")
         chat["stop"] = True
@@ -855,6 +911,8 @@ class StreamWorld(World):
                 raise S.HarnessError("client thread died: %r" % (st.died,))
         if sched.preempts:
             ctx.probe("preempted")
+        if getattr(sched, "stalls", 0):
+            ctx.probe("stalled")
         if state["par"]:
             ctx.probe("concurrent_ops")
         if corr_used[0]:
@@ -893,9 +951,10 @@ class StreamWorld(World):
         for o in obs:
             events.append((o[0], "obs", o))
         events.sort(key=lambda e: e[0])
-        open_sections = []     # [kind, streamId or None]
+        open_sections = []     # [kind, streamId or None, stamp of its start]
         raced_sids = set()
         raced_all = [False]
+        peek_fetches = set()   # start stamps of fetches that overlap a disconnect step (and nothing else table-wide)
         starts = {"hk-start": "hk", "disc-start": "disc", "fetch": "fetch", "closex": "closex"}
         ends = {"hk": "hk", "disc-end": "disc", "fetch-end": "fetch", "closex-end": "closex"}
         for _, what, o in events:
@@ -905,15 +964,22 @@ class StreamWorld(World):
             if k in ("create", "fetch", "closex") and any(x[0] == "disc" for x in open_sections):
                 ctx.probe("disconnect_during_table_change")
             if k in starts:
-                sec = [starts[k], o[3] if k in ("fetch", "closex") else None]
+                sec = [starts[k], o[3] if k in ("fetch", "closex") else None, o[0]]
                 for other in open_sections:
                     for a, b in ((sec, other), (other, sec)):
-                        if a[1] is None and b[1] is not None:
+                        if a[0] == "disc" and b[0] == "fetch":
+                            # a disconnect step and a fetch are two whole-entry stores: either order, decided by the entry
+                            # the fetch leaves behind (observed when it ends)
+                            peek_fetches.add(b[2])
+                        elif a[1] is None and b[1] is not None:
                             raced_sids.add(b[1])        # table-wide step overlaps a per-stream step
                         elif a[1] is not None and a[1] == b[1]:
                             raced_sids.add(a[1])
-                    if sec[1] is None and other[1] is None:
-                        raced_all[0] = True             # housekeeping overlaps a disconnect: every stream is touched
+                    if sec[1] is None and other[1] is None and life > 0:
+                        # housekeeping overlaps a disconnect step: with a lifetime its removal can race the linger mark of any
+                        # stream.  Without one the pass cannot touch a stream this step marks (the mark is younger than the
+                        # linger period: stalls are at most 2 s, linger is 3 s or more) and the step touches nothing else.
+                        raced_all[0] = True
                 open_sections.append(sec)
             elif k in ends:
                 kind = ends[k]
@@ -925,6 +991,7 @@ class StreamWorld(World):
             # without line pre-emption the bodies of the four steps contain no yield point: they are atomic at their stamps
             raced_sids.clear()
             raced_all[0] = False
+            peek_fetches.clear()
         if raced_sids or raced_all[0]:
             ctx.probe("raced")
 
@@ -1191,6 +1258,8 @@ class StreamWorld(World):
 
         open_ops = {}       # proxy -> its call in flight (two at most, of different proxies, inside a 'par' op)
         disc_applied = set()
+        disc_open = set()
+        disc_t0 = {}        # connection -> virtual time at which its disconnect step began (it may be slow: injected stalls)
         dead = set()        # connections killed by the network (drop) or closed by the server (observed disconnect)
         for stamp, what, o in events:
             if what == "op-start":
@@ -1200,6 +1269,8 @@ class StreamWorld(World):
             if what == "obs":
                 kind, now = o[1], o[2]
                 age(now)
+                if kind == "disc-end":
+                    disc_open.discard(o[3])
                 if kind == "create":
                     sl = slots[o[3]]
                     sl["created"] = now
@@ -1217,6 +1288,7 @@ class StreamWorld(World):
                         continue
                     cur_op["fetches"] += 1
                     sl = slots[cur_op["s"]]
+                    sl["pre_conns"] = {a[1] for a in (sl["S"] or ()) if a[0] == "live"}
                     if sl["broken"] or sl["S"] is None:
                         continue
                     if cur_op["fetches"] > 1 and not cur_op.get("fault_fired"):
@@ -1226,6 +1298,42 @@ class StreamWorld(World):
                         on_fetch_lost(sl, now, o[4], cur_op)    # the server runs the fetch, its reply never reaches the client
                     else:
                         on_fetch(sl, now, o[4], cur_op)
+                    if o[0] in peek_fetches:
+                        sl["peek_at"] = o[3]
+                elif kind == "fetch-end":
+                    for sl in slots:
+                        if sl.get("peek_at") == o[3] and sl["sid"] == o[3]:
+                            sl["peek_at"] = None
+                            if sl["broken"] or sl["S"] is None or fuzzy(sl) or sl.get("maybe"):
+                                continue
+                            ctx.probe("fetch_during_disconnect")
+                            pk = o[4]
+                            if pk is None:
+                                if sl["S"] != {GONE}:
+                                    sl["S"] = {GONE}    # (answered with the end / an error, or dropped by the disconnect: linger 0)
+                                    sl["reason"] = sl["reason"] or "dropped at disconnect (no linger)"
+                                back = sorted(c for c in sl.get("pre_conns", ()) if c in disc_open)
+                                if back and linger > 0:
+                                    # the disconnect step of its old connection is still in progress: it may have read the entry
+                                    # before the fetch removed it and store its linger mark afterwards (the entry comes back for
+                                    # one linger period; nobody can reach it) - tolerated
+                                    sl["S"] = {GONE, ("linger", disc_t0.get(back[0], now))}
+                                    sl["back_conn"] = back[0]
+                                    ctx.probe("entry_may_come_back")
+                            elif pk[0] is None:
+                                sl["S"] = {("linger", pk[1] if pk[1] else now)}
+                            else:
+                                sl["S"] = {("live", pk[0])}
+                                if pk[0] in disc_open:      # its connection's disconnect step has not reached it yet
+                                    sl["S"].add(("linger", now) if linger > 0 else GONE)
+                elif kind == "disc-start":
+                    disc_t0[o[3]] = now
+                    disc_open.add(o[3])
+                    # from now on until the step ends each stream of that connection may already carry its linger mark / be dropped
+                    # (the step can be slow: several injected stalls add up to more than a linger period)
+                    for sl in slots:
+                        if sl["S"] and ("live", o[3]) in sl["S"]:
+                            sl["S"] = set(sl["S"]) | {("linger", now) if linger > 0 else GONE}
                 elif kind == "closex":
                     for sl in slots:
                         if sl["sid"] == o[3] and sl["S"] is not None:
@@ -1244,11 +1352,17 @@ class StreamWorld(World):
                     for sl in slots:
                         if sl["S"] is None:
                             continue
+                        if sl.get("back_conn") == o[3]:
+                            sl["back_conn"] = None
+                            if linger > 0:
+                                sl["S"] = set(sl["S"]) | {("linger", now)}
                         ns = set()
                         for a in sl["S"]:
                             if a == ("live", o[3]):
                                 if linger > 0:
                                     ns.add(("linger", now))
+                                    if disc_t0.get(o[3], now) < now:
+                                        ns.add(("linger", disc_t0[o[3]]))   # a slow step: the mark was set somewhere in between
                                 else:
                                     ns.add(GONE)
                                     if sl["reason"] is None:
